@@ -226,6 +226,10 @@ def points(tier: str) -> List[Dict[str, Any]]:
                     if mode == "sync_close_foreign_loop" and (off // 1000) % 4:
                         continue  # the foreign thread runs an event loop of its own: a quarter of the instants
                     pts.append({"scenario": scenario, "jitter": jitter, "close_at_us": off, "mode": mode})
+    # closing again after the event loop itself has gone
+    for scenario, off in (("busy", 5_000_000), ("busy", 2_600_000), ("early", 400_000)):
+        for mode in ("async_close", "sync_close"):
+            pts.append({"scenario": scenario, "jitter": 0.0, "close_at_us": off, "mode": mode, "then_loop_closed": True})
     # fault injection: the kernel's send buffer is full (EAGAIN) for the k-th goodbye datagram of the shutdown, or for all of
     # them; asyncio then holds the datagram in the transport's write buffer until the socket is writable again
     for scenario, offs2 in (("busy", (1_800_000, 5_000_000, 9_000_000)), ("early", (1_100_000,))):
@@ -347,6 +351,16 @@ def run_point(p: Dict[str, Any], verbose: bool = False) -> Tuple[Optional[Dict[s
             problems.append(f"exception: {excs[0]}")
         if w.loop.spins:
             problems.append("busy-loop: a timer keeps re-arming itself with no delay after shutdown")
+        if p.get("then_loop_closed"):
+            # the application's event loop has ended and was closed; a leftover close() (atexit, __exit__, __del__) from the
+            # main thread is still "closing again"
+            w.loop.shut()
+            with w.outside():
+                try:
+                    zc.close()
+                except Exception as e:  # noqa: BLE001
+                    problems.append(f"close-again: close() on the closed instance raised {type(e).__name__}: {e} once the "
+                                    f"event loop itself had been closed")
         obs = digest((round(t_ret - t_req, 3), [(round(d.t_ms - t_req, 3), d.sent.data) for d in during], log.calls[-3:]))
         if verbose:
             print(f"    close requested at +{t_req - t0:.1f}, returned +{t_ret - t_req:.1f} later; registered {list(registered)}")
